@@ -40,10 +40,19 @@ def confirm(wt, patch, demo, jobs="6"):
         tail = [l for l in o.splitlines() if re.search(r"passed|failed", l)][-1:]
         failed = sorted(set(re.findall(r"^FAILED (\S+)", o, re.M)))
         out["suite_summary"] = tail[0] if tail else o[-300:]
-        out["suite_failures_other_than_socket_guard"] = [f for f in failed if "test_socket_guard" not in f]
+        other = [f for f in failed if "test_socket_guard" not in f]
+        if other:
+            # under xdist a test that relies on the tx cache loaded by an earlier OfflineTestCase in the same process
+            # (test_taproot.py::test_p2tr_validation) can land on a worker without it: re-run serially after test_tx.py
+            ids = " ".join(f.split(" ")[0] for f in other)
+            rc2, o2 = sh(f"{PY} -m pytest -q -p no:cacheprovider -p no:rerunfailures --timeout=900 buidl/test/test_tx.py {ids}", cwd=wt)
+            still = sorted(set(re.findall(r"^FAILED (\S+)", o2, re.M)))
+            out["xdist_order_artefacts_passing_serially"] = [f for f in other if f.split(" ")[0] not in still]
+            other = [f for f in other if f.split(" ")[0] in still and "test_socket_guard" not in f]
+        out["suite_failures_other_than_socket_guard"] = other
     finally:
         sh("git checkout -- .", cwd=wt)
-    out["confirmed"] = out["demo_without_change_exit"] == 0 and out["demo_with_change_exit"] not in (0, None) and not out["suite_failures_other_than_socket_guard"] and "passed" in out["suite_summary"]
+    out["confirmed"] = out["demo_without_change_exit"] == 0 and out["demo_with_change_exit"] not in (0, None) and not out["suite_failures_other_than_socket_guard"] and "passed" in out["suite_summary"] and "error" not in out["suite_summary"]
     return out
 
 
